@@ -334,7 +334,7 @@ def check_C03(ctx):
         got_payload = field(a, "payload")
         got_payload = b"" if got_payload in ("None", "-") else bytes.fromhex(got_payload)
         if kind == "roundtrip":
-            if not payload_equal_mod_reserved(ent, lay, got_payload):
+            if not payload_equal_mod_reserved(ent, lay, got_payload) and not only_nan_fields_differ(ent, lay, got_payload):
                 key = classify_c03_mismatch(ent, lay, bf, kw, got_payload)
                 res.finding(key, "payload regenerated from the parsed attributes differs from the original",
                             dict(op=l[:3000], original=lay.payload.hex(), regenerated=got_payload.hex()))
@@ -417,6 +417,24 @@ def payload_equal_mod_reserved(ent, lay, got):
         return False
     mask = reserved_mask(ent, lay)
     return all((a & ~m & 0xFF) == (b & ~m & 0xFF) for a, b, m in zip(lay.payload, got, mask))
+
+
+def only_nan_fields_differ(ent, lay, got):
+    """NaN payload bits of R4/R8 fields are not compared (the harness carries NaN as one token)"""
+    if len(got) != len(lay.payload):
+        return False
+    mask = reserved_mask(ent, lay)
+    for rn, t, sc, off, b, kind in lay.fields:
+        seg = got[off:off + len(b)]
+        if any((x & ~m & 0xFF) != (y & ~m & 0xFF) for x, y, m in zip(b, seg, mask[off:off + len(b)])):
+            if not (t[0] == "R" and decode_nan(t, b) and decode_nan(t, seg)):
+                return False
+    return True
+
+
+def decode_nan(t, b):
+    x = struct.unpack("<f" if len(b) == 4 else "<d", b)[0]
+    return x != x
 
 
 def first_diff_field(ent, lay, got):
